@@ -2,9 +2,15 @@
    Only ExtrOcamlBasic's directives are used; N, Z, positive and nat stay
    extracted datatypes.  Run coqc on this file from /verif/ocaml. *)
 From Coq Require Extraction ExtrOcamlBasic.
-From NTRIP Require Import Base Bits.
+From NTRIP Require Import Base Bits Crc Time Classify Frame FrameSpec TimeSpec History.
 Extraction Language OCaml.
 Extraction "model.ml"
   bytes_okb slice
   bits_of N_of_bits Z_of_bits_2c put_u put_s bytes_of_bits
-  get_u get_s.
+  get_u get_s
+  crc24q_hash crc24q_spec crc_table
+  new_handler new_handler_unrepaired time_from_timestamp start_of_week
+  msm4b msm7b msmb constellation_code
+  get_len_type check_crc get_message fetch handle_stream
+  valid_frameb frame_type wf_segsb flatten merge_junk expected
+  week_start enc event_frame admissibleb answer run_frames run_history report_ok msm_time_frame frame_of_payload.
